@@ -15,21 +15,38 @@ PROPS = {
     'C01': dict(
         v=['C01_kernels', 'C01_raft'],
         k=[('tensor_chain', ['c01_quorum_majority'])],
-        b=[],
+        b=['c01_handlers'],
+        pairs={'C01_raft': ['bounded:c01_handlers']},
         level='other',
         technique='Verus contracts on the extracted Raft handlers (vote, append, commit) and kernels + election-safety lemma; Kani full-domain quorum harness',
         claim='per-handler Raft safety obligations proved for every node state and message, modulo the stated abstraction rules (locks erased, ids abstract, WAL/health externals): vote at most once per term and only for an up-to-date log, append consistency, acknowledgement and commit bounded by the verified prefix, commit only current-term entries acked by a quorum; quorum arithmetic (Verus + Kani); election-safety lemma',
         explanation='Per-function contracts on the real handlers are discharged deductively (level: proof modulo R4/R8-R13, listed); the history-level induction over N nodes x network x crashes is NOT claimed — the lemmas show how the per-handler contracts compose.',
     ),
     'C02': dict(
-        v=['C02_replay'], k=[], b=[],
+        v=['C02_replay'], k=[], b=['c02_durable'],
+        pairs={'C02_replay': ['bounded:c02_durable']},
         level='other',
         technique='Verus: extracted WAL replay loop proved equal to a parse spec over a ghost byte stream + crash-prefix / whole-log theorems',
         claim='TensorWal::replay_with_validation returns exactly parse(file) for every file content (Verus, modulo assumed read_exact/crc/codec contracts); parse(log ++ torn record) == log for every cut point (theorem)',
         explanation='Replay/parse and the crash-prefix theorem are proved for all logs and all cut points; open/append/recover/checkpoint sequences on real files are bounded.',
     ),
+    'C05': dict(
+        v=[], k=[], b=['c05_graph'],
+        level='other',
+        technique='bounded native contract checks of GraphEngine (representation invariant + exact effect/frame after every operation of all short sequences, derived queries vs a spec over all_edges); the adjacency helpers are string/TensorData manipulations outside the Verus/Kani subset',
+        claim='BOUNDED: after every create/delete/update in all operation sequences of length <= 5 over <= 4 nodes (incl. self-loops, parallel and undirected edges, hubs above the parallel-deletion threshold) the graph is well-formed, the edge set changed exactly as specified, and neighbors/degree/traverse equal the spec computed from all_edges. The multi-thread clause is NOT covered.',
+        explanation='Bounded stand-in only. Sequential contracts; concurrency out of reach of this technique.',
+    ),
+    'C09': dict(
+        v=[], k=[], b=['c09_reltx'],
+        level='other',
+        technique='bounded native contract checks of relational transactions (rollback/commit views incl. indexed reads, lock exclusion, all-or-nothing locking, phase rules) over all short scripts of two interleaved transactions; the lock manager uses DashMap/parking_lot and is outside the Verus/Kani subset',
+        claim='BOUNDED: on all single-transaction scripts <= 3 statements and all interleavings with one statement of a second transaction: rollback restores rows and every indexed read, commit equals non-transactional execution, modified rows conflict, multi-row lock acquisition is all-or-nothing, finished transactions are unusable, locks are released. Threads not covered.',
+        explanation='Bounded stand-in only.',
+    ),
     'C10': dict(
-        v=['C10_fold', 'C10_walfile'], k=[], b=[],
+        v=['C10_fold', 'C10_walfile'], k=[], b=['c10_raftwal'],
+        pairs={'C10_fold': ['bounded:c10_raftwal'], 'C10_walfile': ['bounded:c10_raftwal']},
         level='other',
         technique='Verus: extracted RaftRecoveryState::from_entries proved equal to term/vote and log folds written from the property + stickiness lemmas',
         claim='recovered (term, vote) = highest acted-on term and the FIRST vote recorded in it, recovered log = appended entries after truncations in index order, for every WAL entry sequence (Verus; BTreeMap by assumed contract)',
@@ -45,7 +62,7 @@ PROPS = {
     ),
     'C04': dict(
         v=['C04_sortkey'], k=[('relational_engine', ['c04_ordfloat_total_order', 'c04_ordfloat_eq_implies_cmp_equal',
-                                                     'c04_float_sort_key_monotone', 'c04_float_sort_key_roundtrip'])], b=[],
+                                                     'c04_float_sort_key_monotone', 'c04_float_sort_key_roundtrip'])], b=['c04_relq'],
         level='other',
         technique='Kani full-domain harnesses on the OrderedFloat comparator and on the float index-key statements pasted from the real functions; Verus on the extracted integer index-key arithmetic',
         claim='the btree key comparator is a total order on all f64 bit patterns; the persisted float index key is strictly monotone and decodes back to the value for EVERY f64 bit pattern (Kani, complete); the integer key is an order isomorphism with exact inverse for all i64 (Verus)',
@@ -88,14 +105,14 @@ PROPS = {
     ),
     'C14': dict(
         v=[], k=[('tensor_vault', ['c14_permission_allows_total_order', 'c14_permission_level_roundtrip', 'c14_max_min_are_lattice_ops',
-                                   'c14_attenuate_never_amplifies_and_monotone'])], b=[],
+                                   'c14_attenuate_never_amplifies_and_monotone'])], b=['c14_vault'],
         level='other',
         technique='Kani full-domain harnesses on the permission lattice and attenuation policy',
         claim='permission order/lattice ops and hop attenuation monotonicity proved for all policies and hop counts (Kani, complete)',
         explanation='Lattice kernels proved; access decisions bounded.',
     ),
     'C15': dict(
-        v=[], k=[('neumann_parser', ['c15_binding_power_matches_documented_levels'])], b=[],
+        v=[], k=[('neumann_parser', ['c15_binding_power_matches_documented_levels'])], b=['c15_parser'],
         level='other',
         technique='Kani full-domain harness on the Pratt binding-power table vs the documented precedence levels',
         claim='binding-power table is order-isomorphic to the documented precedence, left-associative, prefix tighter than infix (Kani, complete)',
@@ -112,7 +129,7 @@ PROPS = {
         explanation='',
     ),
     'C18': dict(
-        v=[], k=[('graph_engine', ['c18_dijkstra_entry_total_order', 'c18_dijkstra_entry_min_heap_direction'])], b=[],
+        v=[], k=[('graph_engine', ['c18_dijkstra_entry_total_order', 'c18_dijkstra_entry_min_heap_direction'])], b=['c18_paths'],
         level='other',
         technique='Kani full-domain harnesses on the Dijkstra heap entry ordering',
         claim='heap entry order is total, NaN-safe and min-first (Kani, complete)',
